@@ -182,7 +182,8 @@ def run(repo='/repo', tier='quick'):
     ends_avail = None
     for b_, i_, w in P.field_writes(endf, 'avail_out'):
         dom = C.dominators(endf)
-        if w['k'] == 'assign' and w['op'] == '=' and all(b_ in dom[rb] for rb, ri, rs in endf.returns()) or b_ in C.postdominators(endf)[endf.entry]:
+        # the reset counts only when it is made on every path through _end() (it post-dominates the entry)
+        if w['k'] == 'assign' and w['op'] == '=' and b_ in C.postdominators(endf)[endf.entry]:
             ends_avail = P.K(w['r'])
     zero_init = all(is_lit(w['r'], 0) for b_, i_, w in P.field_writes(endf, 'zlib_initialized'))
     res.check(zero_init and bool(P.field_writes(endf, 'zlib_initialized')), 'C07.c', 'end:clears-initialized', 'htp_gzip_decompressor_end() leaves zlib_initialized == 0',
@@ -509,6 +510,7 @@ def run(repo='/repo', tier='quick'):
     c07p(db, res)
     c07q(db, res)
     c07r(db, res)
+    c07s(db, res)
     return res
 
 
@@ -743,3 +745,36 @@ def c07r(db, res):
                 res.check(uses_tok, 'C07.r', '%s:%s-advance' % (name, inp), 'the cursor moves to the end of the token the scanner returned',
                           '%s advances `%s` by %s, measured from where the scan started, although get_token() skips leading separators and returns the token in `%s`: with two separator characters in front of a coding the next scan starts inside it ("gzip ,  deflate" also yields "te"; "deflate,        gzip" yields gzip twice - three layers for two codings)' % (name, inp, S(w['r']), tok), w['loc'])
     res.floor('C07.r', 'advances of a get_token input cursor', n, 1)
+
+
+def c07s(db, res):
+    """htp_gzip_decompressor_probe() tells the restart how many leading bytes of the chunk are gzip header and can be skipped.
+    When the header (a file name, a comment) is not complete inside this chunk the probe cannot know where it ends: it has to
+    answer 0 (skip nothing, let zlib read the header itself). Any other answer - the whole chunk, say - throws compressed
+    payload or header bytes away, and the body is neither decoded nor passed through."""
+    res.rule('C07.s', 'the gzip header probe claims nothing it has not seen: in htp_gzip_decompressor_probe every return of a computed skip count is on the false edge of <count> > <length of the data>, and the true edge returns 0')
+    f = db.get('htp_gzip_decompressor_probe')
+    lenp = f.params[1]['name']
+    n = 0
+    bad = None
+    guard_seen = False
+    retvars = {P.ret_value(st)['name'] for b_, i_, st in (f.returns() or []) if P.ret_value(st) is not None and P.ret_value(st).get('k') == 'var'}
+    for atoms, events, end, seq in P.enum_paths_seq(f, (f.entry, -1), max_paths=20000):
+        if end[0] != 'return':
+            continue
+        rv = P.ret_value(end[3])
+        facts = [a for a, e in atoms]
+        over = [a for a in facts if a[2] == lenp and a[1] in ('>', '>=') and a[0] in retvars]
+        under = [a for a in facts if a[2] == lenp and a[1] in ('<=', '<') and a[0] in retvars]
+        if over:
+            guard_seen = True
+            n += 1
+            if rv is None or not is_lit(rv, 0):
+                bad = ('over', end[3])
+        elif rv is not None and rv.get('k') == 'var':
+            n += 1
+            if not any(a[0] == rv['name'] for a in under):
+                bad = ('unguarded', end[3])
+    res.check(bad is None and guard_seen, 'C07.s', 'htp_gzip_decompressor_probe:skip-count-within-data', 'a skip count beyond the data is answered with 0 on all %d paths' % n,
+              'htp_gzip_decompressor_probe %s: when the gzip header is not complete inside the chunk (a file name cut by the chunk boundary) the caller skips bytes the probe never saw - the first chunk of the body is lost and the stream is neither decoded nor passed through' % ('returns a non-zero skip count on the path where the computed count exceeds the data' if bad and bad[0] == 'over' else 'returns a computed skip count that was never compared with the length of the data'), (bad[1] if bad else {}).get('loc', f.loc))
+    res.floor('C07.s', 'return paths of the gzip header probe', n, 3)
